@@ -493,8 +493,9 @@ const char * Context::language()
 
 double Context::random(double max)
 {
-  static std::minstd_rand r;
-  static bool seeded = false;
+  /* one generator per thread: clones run on several threads */
+  static thread_local std::minstd_rand r;
+  static thread_local bool seeded = false;
   if (!seeded)
   {
     seeded = true;
